@@ -46,7 +46,7 @@ def job_for(ctx, contract, unit, cases, observe=None, shapes=None):
         "class_modules": cm, "clauses": contract.ensures, "clauses_exc": contract.ensures_exc,
         "requires": contract.requires, "raises": contract.raises, "params": params, "kwonly": kwonly,
         "cases": cases, "observe": observe or sorted(_path_expr(p) for p in types if "." in p or p in params),
-        "patches": contract.native.get("patches", {}), "spec_funs": contract.native.get("spec_funs", {}),
+        "patches": contract.native.get("patches", {}), "spec_funs": contract.native.get("spec_funs", {}), "spec_names": contract.native.get("spec_names", {}),
         "class_fields": contract.class_fields, "construct": contract.native.get("construct", []), "backrefs": contract.backrefs, "native_defaults": contract.native.get("defaults", {}),
         "yield_to": contract.yield_to, "record_list": contract.native.get("record_list"), "record_lists": contract.native.get("record_lists", []), "result_records": contract.native.get("result_records", False),
         "int_window": contract.native.get("int_window", [-2, 16]),
